@@ -237,6 +237,113 @@ def _gen_re_emit(o, rel, t):
     o.z("re_sz_repeat_any", 1 + repany)
 
 
+CTYPES = {"int": "s32", "int32_t": "s32", "signed": "s32", "unsigned": "u32", "unsigned int": "u32", "uint32_t": "u32",
+          "long": "s64", "long long": "s64", "int64_t": "s64", "unsigned long": "u64", "unsigned long long": "u64", "uint64_t": "u64",
+          "size_t": "u64"}
+CMAX = {"s32": 2 ** 31 - 1, "u32": 2 ** 32 - 1, "s64": 2 ** 63 - 1, "u64": 2 ** 64 - 1}
+
+
+def _cwrap(ty, term):
+    bits = 32 if ty.endswith("32") else 64
+    if ty[0] == "u":
+        return "(c_wrap_u %d %s)" % (2 ** bits, term)
+    return "(c_wrap_s %d %d %s)" % (2 ** bits, 2 ** (bits - 1), term)
+
+
+def _cexpr_typed(src, var, vartype, where):
+    """C expression over one variable, integer literals, `*`, `+`, casts and parentheses -> (Gallina term over Z, C type),
+    with the usual arithmetic conversions and wrap-around made explicit"""
+    toks = re.findall(r"\d+[uUlL]*|[A-Za-z_]\w*|[()*+]", src)
+    if "".join(toks) != re.sub(r"\s+", "", src):
+        raise GenError("translator cannot parse %s: expression '%s'" % (where, src.strip()))
+    pos = [0]
+
+    def peek():
+        return toks[pos[0]] if pos[0] < len(toks) else None
+
+    def take():
+        pos[0] += 1
+        return toks[pos[0] - 1]
+
+    def join(a, b):
+        ra, rb = int(a[1:]), int(b[1:])
+        if ra == rb:
+            return ("u" if "u" in (a[0], b[0]) else "s") + str(ra)
+        return a if ra > rb else b
+
+    def binop(l, r_, opc):
+        t_ = join(l[1], r_[1])
+        return (_cwrap(t_, "(%s %s %s)" % (_cwrap(t_, l[0]), opc, _cwrap(t_, r_[0]))), t_)
+
+    def atom():
+        t_ = peek()
+        if t_ == "(":
+            take()
+            # a cast?
+            j = pos[0]
+            words = []
+            while j < len(toks) and re.fullmatch(r"[A-Za-z_]\w*", toks[j]):
+                words.append(toks[j])
+                j += 1
+            if words and j < len(toks) and toks[j] == ")" and " ".join(words) in CTYPES:
+                pos[0] = j + 1
+                ty = CTYPES[" ".join(words)]
+                a = atom()
+                return (_cwrap(ty, a[0]), ty)
+            e = add()
+            if take() != ")":
+                raise GenError("translator cannot parse %s: unbalanced parentheses in '%s'" % (where, src.strip()))
+            return e
+        take()
+        if t_ == var:
+            return (var, vartype)
+        m_ = re.fullmatch(r"(\d+)([uUlL]*)", t_ or "")
+        if not m_:
+            raise GenError("translator cannot parse %s: token '%s' in '%s'" % (where, t_, src.strip()))
+        v, suf = int(m_.group(1)), m_.group(2).lower()
+        if "u" in suf:
+            ty = "u64" if "l" in suf or v > CMAX["u32"] else "u32"
+        else:
+            ty = "s64" if "l" in suf or v > CMAX["s32"] else "s32"
+        return ("%d" % v, ty)
+
+    def mul():
+        l = atom()
+        while peek() == "*":
+            take()
+            l = binop(l, atom(), "*")
+        return l
+
+    def add():
+        l = mul()
+        while peek() == "+":
+            take()
+            l = binop(l, mul(), "+")
+        return l
+    e = add()
+    if pos[0] != len(toks):
+        raise GenError("translator cannot parse %s: trailing tokens in '%s'" % (where, src.strip()))
+    return e
+
+
+def _gen_timeout(o, t):
+    """scanner.c yr_scanner_set_timeout: seconds -> the nanoseconds the two deadline tests compare with yr_stopwatch_elapsed_ns"""
+    m = _one("scanner.c", t, r"void\s+yr_scanner_set_timeout\s*\(\s*YR_SCANNER\s*\*\s*scanner\s*,\s*([\w ]+?)\s+timeout\s*\)\s*\{\s*"
+                             r"scanner->timeout\s*=\s*([^;]+);\s*\}", "yr_scanner_set_timeout")
+    pty = " ".join(m.group(1).split())
+    if pty not in CTYPES:
+        raise GenError("translator cannot parse scanner.c: parameter type '%s' of yr_scanner_set_timeout" % pty)
+    f = re.search(r"uint64_t\s+timeout\s*;", _src("include/yara/types.h"))
+    if not f:
+        raise GenError("translator cannot parse types.h: YR_SCAN_CONTEXT.timeout is not a uint64_t")
+    term, ty = _cexpr_typed(m.group(2), "timeout", CTYPES[pty], "scanner.c yr_scanner_set_timeout")
+    o.comment("scanner.c yr_scanner_set_timeout(scanner, %s timeout): `scanner->timeout = %s;` (uint64_t field, compared with "
+              "yr_stopwatch_elapsed_ns in the block loop and in the VM); integer types and wrap-around explicit" % (pty, " ".join(m.group(2).split())))
+    o.z("timeout_param_max", CMAX[CTYPES[pty]])
+    o.lines.append("Definition timeout_ns (timeout : Z) : Z := %s." % _cwrap("u64", term))
+    o.z("timeout_ns_per_second", 10 ** 9)
+
+
 @gen.register("GenLimits.v")
 def gen_limits():
     o = Out()
@@ -370,6 +477,7 @@ def gen_limits():
         raise GenError("translator cannot parse scanner.c: the block loop must advance i by exactly one `i++` per iteration (found %r)" % steps)
     o.z("block_index_init", 0)
     o.z("block_index_step", 1)
+    _gen_timeout(o, t)
     o.comment("scanner.c slow-scanning warning: visit test `scanner->matches->count OP SLOW` (matches[0]: the string with index 0), final test lo/hi")
     m = _one(rel, body, r"if\s*\(\s*scanner->matches->count\s*" + OPRE + r"\s*(\w+)\s*\)\s*\{\s*report_string\s*=\s*match->string\s*;", "slow visit test")
     o.op("slow_visit_op", m.group(1))
